@@ -27,7 +27,7 @@ STUBS = ["vp.memfs mounted (file_parser.open, os façade, finder.tqdm identity, 
 ASSUMPTIONS = ["-p filtering is modelled as restricting the configuration dict to the selected platforms (what __main__/tree do after "
                "loading); the TOML/CLI parsing around it is outside the claim",
                "once the symbolic bits are decided all data is concrete and the real code runs untraced on that leaf"]
-BOUNDS = {"quick": "5 scenario templates x 3 commands; every assignment of commands to 3 platforms, 3 of the 6 orders, 4 of the 8 platform subsets, 2 -D bits",
+BOUNDS = {"quick": "6 scenario templates x 3 commands; every assignment of commands to 3 platforms, 3 of the 6 orders, 4 of the 8 platform subsets, 2 -D bits",
           "thorough": "all 6 orders and all 8 subsets"}
 EXPLANATION = ("Assignment, order, subset and -D bits are bounded symbolic values exhausted by CrossHair; on each leaf the real finder.find is run "
                "on the full configuration, on each command alone, on the permuted and on the filtered configuration, and all results are "
@@ -94,7 +94,22 @@ def t_two_dirs(d):
     return files, cmds
 
 
-TEMPLATES = {"shared_define": t_shared_define, "pragma_once": t_pragma_once, "undef_cmdline": t_undef_cmdline,
+def t_inc_paths(d):
+    """commands of one directory whose -I lists differ: the same spelling resolves to different files per command"""
+    files = {
+        "/r/src/n.c": ['#include "config.h"', '#include "common.h"', "@"],
+        "/r/src/d.c": ['#include "config.h"', '#include "common.h"', "@"],
+        "/r/src/e.c": ["#include <config.h>", '#include "common.h"', "@"],
+        "/r/src/common.h": ["#ifdef NET", "@", "#endif", "#ifdef DISK", "@", "#endif", "@"],
+        "/r/cfg_n/config.h": ["#define NET", "@"],
+        "/r/cfg_d/config.h": ["#define DISK", "@"],
+    }
+    cmds = [scen.entry("/r/src/n.c", [], ["/r/cfg_n"]), scen.entry("/r/src/d.c", [], ["/r/cfg_d"]),
+            scen.entry("/r/src/e.c", [], ["/r/cfg_d", "/r/cfg_n"] if d[0] else (["/r/cfg_n", "/r/cfg_d"] if d[1] else ["/r/cfg_n"]))]
+    return files, cmds
+
+
+TEMPLATES = {"inc_paths": t_inc_paths, "shared_define": t_shared_define, "pragma_once": t_pragma_once, "undef_cmdline": t_undef_cmdline,
              "same_file_two_defs": t_same_file_two_defs, "two_dirs": t_two_dirs}
 PLATS = ["p", "q", "r"]
 
@@ -225,8 +240,8 @@ def obligations(tier, known):
 
 
 CLAIM = ("For every assignment of three commands to up to three platforms, every command order, every selected subset and every -D choice in "
-         "5 scenarios with shared headers (guards, #pragma once, #undef of command-line macros, same header from two directories), the "
+         "6 scenarios with shared headers (guards, #pragma once, #undef of command-line macros, same header from two directories), the "
          "full analysis equals the union of fresh single-command analyses, the reference preprocessor, its own permutations and the "
          "projection of itself - exhausted by CrossHair.")
-LEVEL_NOTE = ("Trusted: CrossHair/z3 for the enumeration, vp/memfs.py, vp/refs/ref_cpp.py (gcc -E on replay). Bounded: 5 templates, 3 commands, "
+LEVEL_NOTE = ("Trusted: CrossHair/z3 for the enumeration, vp/memfs.py, vp/refs/ref_cpp.py (gcc -E on replay). Bounded: 6 templates, 3 commands, "
               "3 platforms. CLI -p parsing is outside.")
